@@ -200,7 +200,14 @@ impl WriteSource for pr::ExprKind {
                 for param in &c.named_params {
                     r += opt.consume(&write_ident_part(&param.name))?;
                     r += opt.consume(":")?;
-                    r += opt.consume(&param.default_value.as_ref().unwrap().write(opt.clone())?)?;
+                    // a default value is read like an argument of a call: anything that binds
+                    // weaker than a call (and a call itself) needs parentheses
+                    let mut opt_default = opt.clone();
+                    opt_default.unbound_expr = true;
+                    // (the binding strength of a function call, see `binding_strength`)
+                    opt_default.context_strength = 10;
+                    let default = param.default_value.as_ref().unwrap();
+                    r += opt.consume(&default.write(opt_default)?)?;
                     r += opt.consume(" ")?;
                 }
                 r += opt.consume("-> ")?;
@@ -212,7 +219,10 @@ impl WriteSource for pr::ExprKind {
                 }
 
                 // try a single line
-                if let Some(body) = c.body.write(opt.clone()) {
+                if matches!(c.body.kind, Func(_)) {
+                    // the body is read as a call or an expression: a function is neither
+                    r += &c.body.kind.write_between("(", ")", opt.clone())?;
+                } else if let Some(body) = c.body.write(opt.clone()) {
                     r += &body;
                 } else {
                     r += &break_line_within_parenthesis(c.body.as_ref(), opt)?;
@@ -501,9 +511,13 @@ fn display_interpolation(
                     .replace('}', "}}")
                     .as_str()
             }
-            pr::InterpolateItem::Expr { expr, .. } => {
+            pr::InterpolateItem::Expr { expr, format } => {
                 r += "{";
                 r += &expr.write(opt.clone())?;
+                if let Some(format) = format {
+                    r += ":";
+                    r += format;
+                }
                 r += "}"
             }
         }
